@@ -171,15 +171,15 @@ Lemma own_order_rows by_ rev limit res : N res -> owned s0 (step_order_rows by_ 
 Proof. intros H. unfold step_order_rows. own. Qed.
 Lemma own_map_cols m dels res : N res -> owned s0 (step_map_cols m dels res) N.
 Proof. intros H. unfold step_map_cols. own. Qed.
-Lemma own_coalesce cs : forall l, N l -> owned s0 (coalesce_loop cs l) N.
+Lemma own_coalesce sx cs : forall l, N l -> owned s0 (coalesce_loop sx cs l) N.
 Proof. induction cs as [|c t IH]; intros l H; simpl; [own|].
   eapply owned_bind_any; [own|]. intros _. eapply owned_bind_loc; [own|]. intros l' H'. apply IH, H'. Qed.
-Lemma own_join on_a on_b jt nr left right : N left -> N right -> owned s0 (step_join on_a on_b jt nr left right) N.
+Lemma own_join on_a on_b jt nk nr left right : N left -> N right -> owned s0 (step_join on_a on_b jt nk nr left right) N.
 Proof. intros H1 H2. unfold step_join.
   eapply owned_bind_any; [own|]. intros fl. eapply owned_bind_any; [own|]. intros fr.
   destruct (_ && _); [own|].
-  eapply owned_bind_any; [own|]. intros _. eapply owned_bind_loc; [own|]. intros m Hm.
-  eapply owned_bind_any; [own|]. intros _. eapply owned_bind_any; [own|]. intros _.
+  eapply owned_bind_any; [own|]. intros _. eapply owned_bind_any; [own|]. intros _. eapply owned_bind_loc; [own|]. intros m Hm.
+  eapply owned_bind_any; [own|]. intros _. eapply owned_bind_any; [own|]. intros _. eapply owned_bind_any; [own|]. intros _.
   eapply owned_bind_loc; [apply own_coalesce, Hm|]. intros r Hr. own. Qed.
 Lemma own_concat idcol left right : N left -> N right -> owned s0 (step_concat idcol left right) N.
 Proof. intros H1 H2. unfold step_concat. own. Qed.
@@ -207,7 +207,7 @@ Proof. induction p; simpl.
 Lemma own_plexec env p : owned s0 (plexec env p) N.
 Proof. induction p; simpl;
   try (eapply owned_bind_loc; [exact IHp|]; intros l H; unfold pl_convert; own);
-  try (eapply owned_bind_loc; [exact IHp1|]; intros l1 H1; eapply owned_bind_loc; [exact IHp2|]; intros l2 H2; own).
+  try (eapply owned_bind_loc; [exact IHp1|]; intros l1 H1; eapply owned_bind_loc; [exact IHp2|]; intros l2 H2; unfold pl_join; own).
   unfold pl_table. own. Qed.
 End Steps.
 
